@@ -1323,7 +1323,7 @@ Proof.
     destruct (resolve_gens_ext _ _ _ _ _ E1) as [ph1 [-> Hc1]].
     destruct (resolve_lists m (hp0 ++ ph1) (e_arch E)) as [hp2 snaps] eqn:E2.
     destruct (resolve_lists_ext _ _ _ _ _ E2) as [ph2 [-> Hc2]].
-    destruct (relink_all_total m d (all_members gs1) ((hp0 ++ ph1) ++ ph2)) as [hp4 E4]; [rewrite !cnt_app; lia|].
+    destruct (relink_all_total m d (relink_roots gs1 snaps) ((hp0 ++ ph1) ++ ph2)) as [hp4 E4]; [rewrite !cnt_app; lia|].
     rewrite E4. discriminate.
   - destruct (resolve_lists m hp0 ls) as [hp1 rss] eqn:E1.
     destruct (resolve_lists_ext _ _ _ _ _ E1) as [ph1 [-> Hc1]].
@@ -1331,7 +1331,7 @@ Proof.
     destruct (resolve_lists_ext _ _ _ _ _ E2) as [ph2 [-> Hc2]].
     destruct (wrap_lists ((hp0 ++ ph1) ++ ph2) 0 (map g_members (map (fun rs => mkGen 0 0 0 rs) rss))) as [hp3 gs3] eqn:E3.
     pose proof (cnt_wrap_lists _ _ _ _ _ E3) as Hc3.
-    destruct (relink_all_total m d (all_members gs3) hp3) as [hp4 E4]; [rewrite Hc3, !cnt_app; lia|].
+    destruct (relink_all_total m d (relink_roots gs3 snaps) hp3) as [hp4 E4]; [rewrite Hc3, !cnt_app; lia|].
     rewrite E4. discriminate.
 Qed.
 
@@ -1342,20 +1342,18 @@ Qed.
 Definition heap_ordered (h : list (ind pref)) : Prop :=
   forall r x, In x (parents_of (get h r)) -> exists p, x = PRef p /\ p < r.
 
-Lemma extract_total : forall h, heap_ordered h -> forall d r pm, r < d -> exists pm', extract d h pm r = Some pm'.
+Lemma extract_total : forall h, heap_ordered h -> forall gm d r pm, r < d -> exists pm', extract d h gm pm r = Some pm'.
 Proof.
-  intros h HO. induction d as [|d IHd]; intros r pm Hr; [lia|]. cbn [extract].
+  intros h HO gm. induction d as [|d IHd]; intros r pm Hr; [lia|]. cbn [extract].
   assert (Hfold : forall xs pm0, (forall x, In x xs -> exists p, x = PRef p /\ p < r) ->
             exists pm', ofold (fun pm1 x => match x with
                                            | PStr _ => None
-                                           | PRef p => match i_ng (get h p) with
-                                                       | Some _ => Some pm1
-                                                       | None => extract d h (dict_set pm1 (uid_of h p) p) p
-                                                       end
+                                           | PRef p => if has_key gm (uid_of h p) || has_key pm1 (uid_of h p) then Some pm1
+                                                       else extract d h gm (dict_set pm1 (uid_of h p) p) p
                                            end) xs pm0 = Some pm').
   { induction xs as [|x t IH]; intros pm0 Hall; cbn [ofold]; [exists pm0; reflexivity|].
     destruct (Hall x (or_introl eq_refl)) as [p [-> Hp]].
-    destruct (i_ng (get h p)).
+    destruct (has_key gm (uid_of h p) || has_key pm0 (uid_of h p)).
     - apply IH. intros y Hy. apply Hall. right. exact Hy.
     - destruct (IHd p (dict_set pm0 (uid_of h p) p)) as [pm1 E1]; [lia|]. rewrite E1.
       apply IH. intros y Hy. apply Hall. right. exact Hy. }
@@ -1363,10 +1361,10 @@ Proof.
 Qed.
 
 Theorem encode_total : forall H d, heap_ordered (h_heap H) ->
-  (forall r, In r (all_members (h_gens H)) -> r < d) -> encode_history d H <> None.
+  (forall r, In r (pool_roots H) -> r < d) -> encode_history d H <> None.
 Proof.
   intros H d HO Hm. unfold encode_history, pool_refs, parents_map.
-  set (h := h_heap H). set (gm := gens_map h (h_gens H)).
+  set (h := h_heap H). set (gm := gens_map h (pool_roots H)).
   assert (Hvals : forall r, In r (dict_vals gm) -> r < d).
   { unfold gm, gens_map.
     assert (Hgen : forall rs m0, (forall r, In r rs -> r < d) -> (forall r, In r (dict_vals m0) -> r < d) ->
@@ -1382,9 +1380,9 @@ Proof.
           + destruct Hin as [Hin|Hin]; [left; left; exact Hin|]. destruct (IHm Hin) as [Hl|Hr]; [left; right; exact Hl|right; exact Hr]. }
       destruct Hcases as [Hl| ->]; [apply H2; eapply in_dict_vals; exact Hl|apply H1; left; reflexivity]. }
     apply Hgen; [exact Hm|intros r []]. }
-  assert (Hfold : forall vs pm0, (forall r, In r vs -> r < d) -> exists pm, ofold (fun pm r => extract d h pm r) vs pm0 = Some pm).
+  assert (Hfold : forall vs pm0, (forall r, In r vs -> r < d) -> exists pm, ofold (fun pm r => extract d h gm pm r) vs pm0 = Some pm).
   { induction vs as [|v t IH]; intros pm0 Hall; cbn [ofold]; [exists pm0; reflexivity|].
-    destruct (extract_total h HO d v pm0 (Hall v (or_introl eq_refl))) as [pm1 E1]. rewrite E1.
+    destruct (extract_total h HO gm d v pm0 (Hall v (or_introl eq_refl))) as [pm1 E1]. rewrite E1.
     apply IH. intros r Hr. apply Hall. right. exact Hr. }
   destruct (Hfold (dict_vals gm) [] Hvals) as [pm Epm]. fold h. fold gm. rewrite Epm. discriminate.
 Qed.
@@ -1394,15 +1392,15 @@ Qed.
 (* ------------------------------------------------------------------------------------- *)
 Theorem encode_closed : forall H d E, uid_faithful H -> no_str H -> encode_history d H = Some E -> e_closed E.
 Proof.
-  intros H d E UF PCL Henc. unfold encode_history in Henc.
+  intros H d E UF WF Henc. unfold encode_history in Henc.
   destruct (pool_refs d H) as [rs|] eqn:Hpool; [|discriminate]. inversion Henc; subst E; clear Henc.
   unfold e_closed, e_gen_uids. cbn [e_pool e_gens e_arch].
   split; [exact (pool_nodup H UF d rs Hpool)|]. split; [|split].
   - intros u Hu. rewrite (all_members_map (enc_gen (h_heap H)) (uid_of (h_heap H))) in Hu by reflexivity.
-    apply in_map_iff in Hu. destruct Hu as [r [<- Hr]]. apply (uid_in_pool H UF d rs Hpool). apply in_pool_gen. exact Hr.
+    apply in_map_iff in Hu. destruct Hu as [r [<- Hr]]. apply (uid_in_pool H UF d rs Hpool). apply reach_gen. exact Hr.
   - intros u Hu. rewrite concat_map_map in Hu. apply in_map_iff in Hu. destruct Hu as [r [<- Hr]].
-    apply (uid_in_pool H UF d rs Hpool). apply (@pc_snaps H PCL). exact Hr.
-  - intros e u He Hu. exact (pool_closed_parents H UF PCL d rs Hpool e u He Hu).
+    apply (uid_in_pool H UF d rs Hpool). apply reach_snap. exact Hr.
+  - intros e u He Hu. exact (pool_closed_parents H UF WF d rs Hpool e u He Hu).
 Qed.
 
 Lemma mem_b_In : forall x l, mem_b x l = true <-> In x l.
@@ -1462,18 +1460,12 @@ Proof.
   destruct r1 as [|[|[|r1]]]; destruct r2 as [|[|[|r2]]]; try lia; cbn in Hu; try discriminate; reflexivity.
 Qed.
 
-Lemma X_closed : pool_closed X.
+Lemma X_no_str : no_str X.
 Proof.
-  constructor.
-  - intros c x Hc Hx. apply X_reach in Hc. cbn [h_heap X] in Hx.
-    destruct c as [|[|[|c]]]; cbn in Hx; try lia.
-    + destruct Hx as [<-|[]]. eexists; reflexivity.
-    + destruct Hx as [<-|[<-|[]]]; eexists; reflexivity.
-  - intros c p Hc Hp Hng. apply X_reach in Hc. cbn [h_heap X] in Hp, Hng. unfold gen_member. cbn.
-    destruct c as [|[|[|c]]]; cbn in Hp; try lia.
-    + destruct Hp as [Hp|[]]. inversion Hp. left. reflexivity.
-    + destruct Hp as [Hp|[Hp|[]]]; inversion Hp; subst p; [exfalso; apply Hng; reflexivity|left; reflexivity].
-  - intros r Hs. unfold snap_member in Hs. cbn in Hs. destruct Hs as [<-|[]]. apply in_pool_gen. unfold gen_member. cbn. right. left. reflexivity.
+  intros c x Hc Hx. apply X_reach in Hc. cbn [h_heap X] in Hx.
+  destruct c as [|[|[|c]]]; cbn in Hx; try lia.
+  - destruct Hx as [<-|[]]. eexists; reflexivity.
+  - destruct Hx as [<-|[<-|[]]]; eexists; reflexivity.
 Qed.
 
 Lemma X_ordered : heap_ordered (h_heap X).
